@@ -80,6 +80,15 @@ def diff_owner(op, impl, model):
     return PROPS_ALL
 
 
+def norm_key(f, default):
+    """normalised key of a failure that can only arise from the FIN | Empty window (F8): used by the
+    hook replay and by the free-running leg (where the window can open by itself); the serialised
+    generated run cannot open it and keeps its own key, so a drifting counter there is reported."""
+    if f["key"] in ("negative", "conc-negative") and "in_flight_count" in f["what"]:
+        return "inflight-negative-after-empty"
+    return default
+
+
 def _hash_files(paths):
     h = hashlib.sha256()
     for p in sorted(paths):
@@ -325,7 +334,7 @@ def run_property(ctx, prop, tie, props, spec="e2_chan"):
         ctx.corr.setdefault("corpus", []).append({"script": c["script"], "kind": c["kind"], "lines": c["lines"],
                                                   "fails": [f["key"] for f in c["fails"]], "diffs": len(c["diffs"])})
         for f in c["fails"]:
-            key = "%s:%s" % (os.path.basename(c["script"]), f["key"])
+            key = norm_key(f, "%s:%s" % (os.path.basename(c["script"]), f["key"]))
             ctx.violation(key, "%s (replay of %s)" % (f["what"], c["script"]),
                           open(os.path.join(ROOT, c["script"])).read())
         if c["kind"] != "known":
@@ -333,7 +342,7 @@ def run_property(ctx, prop, tie, props, spec="e2_chan"):
                 if prop in df["owners"]:
                     broken.append("corpus %s: model/impl differ at `%s`" % (c["script"], df["op"]))
     # oracle failures of the generated and concurrent runs
-    mine = [f for f in res.get("fails", []) + res.get("conc_fails", []) if prop in ORACLE_OWNER.get(f["key"], PROPS_ALL)]
+    mine = [f for f in res.get("fails", []) if prop in ORACLE_OWNER.get(f["key"], PROPS_ALL)]
     for f in mine[:8]:
         ep = 0
         try:
@@ -341,6 +350,11 @@ def run_property(ctx, prop, tie, props, spec="e2_chan"):
         except (IndexError, ValueError):
             pass
         ctx.violation(f["key"], f["what"], "# %s %s\n%s" % (f["key"], f["where"], cmds_of_episode(res, ep)))
+    cmine = [f for f in res.get("conc_fails", []) if prop in ORACLE_OWNER.get(f["key"], PROPS_ALL)]
+    for f in cmine[:8]:
+        ctx.violation(norm_key(f, f["key"]), f["what"],
+                      "# concurrent leg, VERIF_SEED=%s: %s %s\n# re-run: ./check %s (the schedule is the Go runtime's)\n"
+                      % (ctx.seed, f["key"], f["where"], prop))
     # correspondence diffs
     for df in res.get("diffs", []) + res.get("conc_diffs", []):
         if prop in df["owners"]:
